@@ -40,6 +40,14 @@ Definition fp_read (avail : bytes) (n : Z) (k : nat) : bytes * bytes :=
 (* specification-level vocabulary (Prop, not extracted) *)
 Definition prefix (a b : bytes) : Prop := exists c, b = a ++ c.
 
+(* data[: n] for the stages that have a successor, data itself for the last one *)
+Definition trim_out {A : Type} (rest : list A) (out0 : bytes) (n : Z) : bytes :=
+  match rest with [] => out0 | _ :: _ => py_to out0 n end.
+
+(* fed and len(data) == 0 and i < len(self.chain) - 1 *)
+Definition stop_here {A : Type} (rest : list A) (data out : bytes) : bool :=
+  (0 <? Z.of_nat (length data)) && (Z.of_nat (length out) =? 0) && match rest with [] => false | _ :: _ => true end.
+
 Section Chain.
 
   (* one element of self.chain: (state, input chunk, max_length) -> (state', output) *)
@@ -59,7 +67,8 @@ Section Chain.
     fp_rest     : bytes           (* bytes of fp not yet read        *)
   }.
 
-  (* _decompress (l.671-680).  The three lists are walked in parallel;
+  (* _decompress, with the trimming of inner stages' output to their declared size (the 7zAES zero
+     padding does not reach the next decoder).  The three lists are walked in parallel;
      an index that does not exist in _unpacked/_unpacksizes is Python's
      IndexError -> Err EOther.  Entries of _unpacked beyond len(chain) are
      kept untouched. *)
@@ -71,7 +80,15 @@ Section Chain.
       match up, us with
       | u :: up', z :: us' =>
         if u <? z then
-          let '(s', out) := dstep s data ml in
+          let '(s', out0) := dstep s data ml in
+          (* a non-final stage's output is cut to what its declared size still allows:
+             data = data[: self._unpacksizes[i] - self._unpacked[i]] when i < len(chain) - 1 *)
+          let out := trim_out ss' out0 (z - u) in
+          (* a non-final stage that was given input and delivers nothing needs more input: the
+             round ends here (`return b""`); an empty chunk would tell the stages behind it that
+             the input has ended *)
+          if stop_here ss' data out then Ok (s' :: ss', (u + zlen out) :: up', [])
+          else
           do r <- chain_run ss' up' us' out ml;
           let '(ss'', up'', d) := r in
           Ok (s' :: ss'', (u + zlen out) :: up'', d)
@@ -202,12 +219,14 @@ Section Chain.
       reach s0 s cin cout ->
       reach s0 (fst (dstep s c ml)) (cin ++ c) (cout ++ snd (dstep s c ml)).
 
-  (* runs of a whole chain: stage i's accumulated output is stage i+1's
-     accumulated input *)
-  Inductive creach : list stage_st -> list stage_st -> bytes -> bytes -> Prop :=
-  | creach_nil : forall x, creach [] [] x x
-  | creach_cons : forall s0 s x y s0s ss z,
-      reach s0 s x y -> creach s0s ss y z -> creach (s0 :: s0s) (s :: ss) x z.
+  (* runs of a whole chain: stage i+1's accumulated input y' is stage i's accumulated
+     output y, or -- once the gate of stage i has closed (declared size reached) -- a prefix
+     of it (the rest was cut off as padding).  up / us = _unpacked / _unpacksizes. *)
+  Inductive creach : list stage_st -> list stage_st -> list Z -> list Z -> bytes -> bytes -> Prop :=
+  | creach_nil : forall up us x, creach [] [] up us x x
+  | creach_cons : forall s0 s x y y' s0s ss up us w,
+      reach s0 s x y -> prefix y' y -> (y' = y \/ hd 0 us <= hd 0 up) ->
+      creach s0s ss (tl up) (tl us) y' w -> creach (s0 :: s0s) (s :: ss) up us x w.
 
   (* composition of the stages' stream decoders, in chain order *)
   Fixpoint Dchain (D : stage_st -> bytes -> bytes) (s0s : list stage_st) (x : bytes) : bytes :=
@@ -217,7 +236,7 @@ Section Chain.
      content, acc = everything returned by decompress so far *)
   Definition safe_state (s0s : list stage_st) (P0 : bytes) (st : dstate) (acc : bytes) : Prop :=
     0 <= pos st <= zlen (buf st) /\ unused st = [] /\
-    exists x z, creach s0s (stages st) x z /\ P0 = x ++ fp_rest st /\
+    exists x z, creach s0s (stages st) (unpacked st) (unpacksizes st) x z /\ P0 = x ++ fp_rest st /\
                 consumed st = zlen x /\ zlen x <= Z.max 0 (input_size st) /\
                 z = acc ++ py_from (buf st) (pos st).
 
@@ -275,6 +294,25 @@ Arguments fresh {stage_st}.
 Arguments packed_of {stage_st}.
 Arguments stuck {stage_st}.
 Arguments chain_step {stage_st}.
+
+(* ---- progress inside the chain (SevenZipDecompressor.produced) ---------- *)
+Fixpoint zsum_l (l : list Z) : Z := match l with [] => 0 | x :: t => x + zsum_l t end.
+(* produced = sum(self._unpacked): what the coders have put out so far, all together *)
+Definition produced {stage_st : Type} (st : dstate stage_st) : Z := zsum_l (unpacked st).
+(* a round "took no input and no coder put anything out":
+   decompressor.consumed == consumed_before and decompressor.produced == produced_before *)
+Definition idle {stage_st : Type} (st st' : dstate stage_st) : bool :=
+  (consumed st' =? consumed st) && (produced st' =? produced st).
+(* what the coders may still put out before every gate is closed (specification only):
+   sum of max(0, _unpacksizes[i] - _unpacked[i]); it never grows and shrinks whenever
+   [produced] grows (lemma decompress_progress): the termination measure of the guard *)
+Fixpoint budget_l (up us : list Z) : Z :=
+  match up, us with
+  | u :: up', z :: us' => Z.max 0 (z - u) + budget_l up' us'
+  | _, _ => 0
+  end.
+Definition budget {stage_st : Type} (st : dstate stage_st) : Z :=
+  budget_l (unpacked st) (unpacksizes st).
 
 (* ---- toy stages for differential testing ---------------------------- *)
 (* state = (tag, k, pending).
@@ -347,9 +385,10 @@ Definition max_stalled_rounds : Z := 16.
 
 (* Worker.decompress loop with the stall guard (py7zr.py l.1545-1568).
    stalled = number of rounds since the last delivering round in which
-   decompress returned b"" AND decompressor.consumed did not change.  A round
-   that returns b"" but consumed input leaves stalled unchanged (the Python has
-   no else-branch there).  raise Bad7zFile -> Err EBad7z. *)
+   decompress returned b"" AND neither decompressor.consumed nor
+   decompressor.produced changed ([idle]).  A round that returns b"" but took
+   input, or in which an inner coder put something out, leaves stalled unchanged
+   (the Python has no else-branch there).  raise Bad7zFile -> Err EBad7z. *)
 Fixpoint worker_loop_g {stage_st : Type} (dstep : stage_st -> bytes -> Z -> stage_st * bytes)
          (fuel : nat) (stalled : Z) (st : dstate stage_st) (size max_block : Z)
          (sched : list nat) : res (dstate stage_st * bytes) :=
@@ -361,7 +400,7 @@ Fixpoint worker_loop_g {stage_st : Type} (dstep : stage_st -> bytes -> Z -> stag
       let '(st', tmp) := r in
       let rem := if zlen tmp >? 0 then size - zlen tmp else size in
       do stalled' <- (if zlen tmp >? 0 then Ok 0
-                      else if consumed st' =? consumed st then
+                      else if idle st st' then
                              (if stalled + 1 >? max_stalled_rounds then Err EBad7z
                               else Ok (stalled + 1))
                            else Ok stalled);
@@ -393,7 +432,7 @@ Fixpoint worker_stall_max {stage_st : Type} (dstep : stage_st -> bytes -> Z -> s
       | Ok (st', tmp) =>
         let rem := if zlen tmp >? 0 then size - zlen tmp else size in
         let stalled' := if zlen tmp >? 0 then 0
-                        else if consumed st' =? consumed st then stalled + 1 else stalled in
+                        else if idle st st' then stalled + 1 else stalled in
         if rem <=? 0 then Z.max stalled stalled'
         else Z.max stalled
                    (worker_stall_max dstep fuel' stalled' st' rem max_block (tl sched))
@@ -520,6 +559,66 @@ Proof.
   now rewrite app_nil_r.
 Qed.
 
+(* ---- trimming ---------------------------------------------------------- *)
+Lemma py_to_firstn (l : bytes) (n : Z) : 0 <= n -> py_to l n = firstn (Z.to_nat n) l.
+Proof.
+  intros Hn. unfold py_to, py_slice, py_norm. pose proof (zlen_nonneg l) as Hl.
+  change (0 <? 0) with false. cbv iota.
+  destruct (n <? 0) eqn:E; [lia|].
+  replace (Z.max 0 (Z.min (zlen l) 0)) with 0 by lia. rewrite Z.sub_0_r. simpl skipn.
+  destruct (Z.le_gt_cases n (zlen l)) as [H|H].
+  - replace (Z.max 0 (Z.min (zlen l) n)) with n by lia. reflexivity.
+  - replace (Z.max 0 (Z.min (zlen l) n)) with (zlen l) by lia.
+    unfold zlen in *. rewrite Nat2Z.id, firstn_all, firstn_all2 by lia. reflexivity.
+Qed.
+
+Lemma trim_out_prefix {A : Type} (rest : list A) (o : bytes) (n : Z) : 0 <= n -> prefix (trim_out rest o n) o.
+Proof.
+  intros Hn. destruct rest; simpl; [apply prefix_refl|]. rewrite py_to_firstn by exact Hn.
+  exists (skipn (Z.to_nat n) o). symmetry. apply firstn_skipn.
+Qed.
+
+Lemma trim_out_cases {A : Type} (rest : list A) (o : bytes) (n : Z) :
+  0 <= n -> trim_out rest o n = o \/ zlen (trim_out rest o n) = n.
+Proof.
+  intros Hn. destruct rest; simpl; [left; reflexivity|]. rewrite py_to_firstn by exact Hn.
+  destruct (Z.le_gt_cases (zlen o) n) as [H|H].
+  - left. apply firstn_all2. unfold zlen in H. lia.
+  - right. unfold zlen in *. rewrite firstn_length. lia.
+Qed.
+
+Lemma trim_out_le {A : Type} (rest : list A) (o : bytes) (n : Z) :
+  0 <= n -> zlen (trim_out rest o n) <= zlen o.
+Proof. intros Hn. apply prefix_len, trim_out_prefix, Hn. Qed.
+
+Lemma trim_out_le_n {A : Type} (rest : list A) (o : bytes) (n : Z) (a : A) :
+  0 <= n -> zlen (trim_out (a :: rest) o n) <= n.
+Proof.
+  intros Hn. simpl. rewrite py_to_firstn by exact Hn. unfold zlen. rewrite firstn_length. lia.
+Qed.
+
+Lemma trim_out_nil {A : Type} (rest : list A) (n : Z) : trim_out rest [] n = [].
+Proof.
+  destruct rest; [reflexivity|]. unfold trim_out, py_to, py_slice. rewrite skipn_nil, firstn_nil. reflexivity.
+Qed.
+
+Lemma stop_here_nil_data {A : Type} (rest : list A) (out : bytes) : stop_here rest [] out = false.
+Proof. reflexivity. Qed.
+
+Lemma stop_here_last {A : Type} (data out : bytes) : stop_here (@nil A) data out = false.
+Proof. unfold stop_here. now rewrite andb_false_r. Qed.
+
+Lemma stop_here_true {A : Type} (rest : list A) (data out : bytes) :
+  stop_here rest data out = true -> out = [] /\ data <> [] /\ rest <> [].
+Proof.
+  unfold stop_here. intros H. apply andb_true_iff in H as [H Hr]. apply andb_true_iff in H as [Hd Ho].
+  split; [destruct out; [reflexivity|simpl in Ho; lia]|].
+  split; [destruct data; [discriminate|discriminate]|destruct rest; discriminate].
+Qed.
+
+Lemma trim_out_last {A : Type} (o : bytes) (n : Z) : trim_out (@nil A) o n = o.
+Proof. reflexivity. Qed.
+
 Section ChainProofs.
 
   Variable stage_st : Type.
@@ -575,7 +674,8 @@ Section ChainProofs.
     - injection H as <- <- _. split; reflexivity.
     - destruct up as [|u up]; [discriminate|]. destruct us as [|z us]; [discriminate|].
       destruct (u <? z).
-      + destruct (dstep s data ml) as [s1 o].
+      + destruct (dstep s data ml) as [s1 o0]. set (o := trim_out ss o0 (z - u)) in H.
+        destruct (stop_here ss data o); [injection H as <- <- _; simpl; lia|].
         destruct (chain_run dstep ss up us o ml) as [[[ss2 up2] d]|e] eqn:E;
           simpl in H; [|discriminate].
         injection H as <- <- _. apply IH in E. simpl. lia.
@@ -727,38 +827,61 @@ Section ChainProofs.
   Qed.
 
   (* ==== C. prefix safety ============================================== *)
-  Lemma creach_init (ss : list stage_st) : creach dstep ss ss [] [].
+  Lemma creach_init (ss : list stage_st) : forall up us, creach dstep ss ss up us [] [].
   Proof.
-    induction ss as [|s ss IH]; [apply creach_nil|].
-    eapply creach_cons; [apply reach_init|exact IH].
+    induction ss as [|s ss IH]; intros up us; [apply creach_nil|].
+    eapply creach_cons; [apply reach_init|apply prefix_refl|left; reflexivity|apply IH].
   Qed.
 
-  (* _decompress extends a chain run; the gate can only skip a stage on empty data *)
-  Lemma chain_run_creach (s0s ss : list stage_st) (x z : bytes) :
-    creach dstep s0s ss x z ->
-    forall up us data ml ss' up' out,
+  (* _decompress extends a chain run; the gate can only skip a stage on empty data, and a
+     stage whose output was cut has reached its declared size, so its gate stays closed *)
+  Lemma chain_run_creach (s0s ss : list stage_st) (up us : list Z) (x z : bytes) :
+    creach dstep s0s ss up us x z ->
+    forall data ml ss' up' out,
       chain_run dstep ss up us data ml = Ok (ss', up', out) ->
-      creach dstep s0s ss' (x ++ data) (z ++ out).
+      creach dstep s0s ss' up' us (x ++ data) (z ++ out).
   Proof.
-    induction 1 as [x|s0 s x y s0s ss z Hr Hc IH];
-      intros up us data ml ss' up' out H; simpl in H.
-    - injection H as <- _ <-. apply creach_nil.
+    induction 1 as [up us x|s0 s x y y' s0s ss up us w0 Hr Hp Hg Hc IH];
+      intros data ml ss' up' out H; simpl in H.
+    - injection H as <- <- <-. apply creach_nil.
     - destruct up as [|u up]; [discriminate|]. destruct us as [|w us]; [discriminate|].
-      destruct (u <? w).
-      + pose proof (reach_step stage_st dstep s0 s x y data ml Hr) as Hr'.
-        destruct (dstep s data ml) as [s1 o]. simpl in Hr'.
+      cbn [hd tl] in *.
+      destruct (u <? w) eqn:Eg.
+      + apply Z.ltb_lt in Eg.
+        assert (Hy : y' = y) by (destruct Hg as [Hg|Hg]; [exact Hg|lia]). subst y'.
+        pose proof (reach_step stage_st dstep s0 s x y data ml Hr) as Hr'.
+        destruct (dstep s data ml) as [s1 o0]. simpl in Hr'.
+        set (o := trim_out ss o0 (w - u)) in H.
+        destruct (stop_here ss data o) eqn:Est.
+        { (* the round ends at this stage: the stages behind it are untouched *)
+          apply stop_here_true in Est. destruct Est as (Ho & _ & _).
+          injection H as <- <- <-. rewrite Ho, !app_nil_r, Z.add_0_r.
+          eapply (creach_cons stage_st dstep s0 s1 (x ++ data) (y ++ o0) y); cbn [hd tl].
+          - exact Hr'.
+          - apply prefix_app.
+          - destruct (trim_out_cases ss o0 (w - u) ltac:(lia)) as [He|He]; fold o in He; rewrite Ho in He.
+            + left. now rewrite <- He, app_nil_r.
+            + rewrite zlen_nil in He. lia.
+          - exact Hc. }
         destruct (chain_run dstep ss up us o ml) as [[[ss2 up2] d]|e] eqn:E;
           simpl in H; [|discriminate].
-        injection H as <- _ <-.
-        eapply creach_cons; [exact Hr'|]. eapply IH; exact E.
+        injection H as <- <- <-.
+        eapply (creach_cons stage_st dstep s0 s1 (x ++ data) (y ++ o0) (y ++ o)); cbn [hd tl].
+        * exact Hr'.
+        * destruct (trim_out_prefix ss o0 (w - u) ltac:(lia)) as [c Hc']. fold o in Hc'.
+          exists c. rewrite Hc', app_assoc. reflexivity.
+        * destruct (trim_out_cases ss o0 (w - u) ltac:(lia)) as [He|He]; fold o in He.
+          -- left. now rewrite He.
+          -- right. lia.
+        * eapply IH; exact E.
       + destruct (zlen data =? 0) eqn:Ez; [|discriminate].
         apply Z.eqb_eq in Ez. assert (data = []) as -> by (apply zlen_le0_nil; lia).
         destruct (chain_run dstep ss up us [] ml) as [[[ss2 up2] d]|e] eqn:E;
           simpl in H; [|discriminate].
-        injection H as <- _ <-.
+        injection H as <- <- <-.
         rewrite app_nil_r.
-        eapply creach_cons; [exact Hr|].
-        rewrite <- (app_nil_r y). eapply IH; exact E.
+        eapply (creach_cons stage_st dstep s0 s x y y'); cbn [hd tl]; [exact Hr|exact Hp|exact Hg|].
+        rewrite <- (app_nil_r y'). eapply IH; exact E.
   Qed.
 
   Lemma fresh_safe (st : dst) :
@@ -783,9 +906,9 @@ Section ChainProofs.
     split; [exact Hpos'|]. split; [exact Hun'|].
     exists (x ++ data), (z ++ tmp).
     split; [|split; [|split; [|split]]].
-    - destruct Hch as [(Hs & _ & -> & ->)|[ml' Hrun]].
-      + rewrite !app_nil_r, Hs. exact Hcr.
-      + eapply chain_run_creach; [exact Hcr|exact Hrun].
+    - destruct Hch as [(Hs & Hu' & -> & ->)|[ml' Hrun]].
+      + rewrite !app_nil_r, Hs, Hu', Hus. exact Hcr.
+      + rewrite Hus. eapply chain_run_creach; [exact Hcr|exact Hrun].
     - rewrite HP, Hfp, app_assoc. reflexivity.
     - rewrite Hcons', Hcons, zlen_app. reflexivity.
     - rewrite zlen_app, His. pose proof (zlen_nonneg x). lia.
@@ -952,7 +1075,7 @@ Section ChainProofs.
         destruct (u <? w).
         + destruct (quiet_step s ml Hqs) as (Ho & Hq1).
           destruct (dstep s [] ml) as [s1 o]. simpl in Ho, Hq1. subst o.
-          rewrite Hc. simpl. exists (s1 :: ss'), ((u + zlen []) :: up').
+          cbv zeta. rewrite trim_out_nil, ?stop_here_nil_data, Hc. simpl. exists (s1 :: ss'), ((u + zlen []) :: up').
           repeat split; auto; simpl; lia.
         + change (zlen [] =? 0) with true. cbv iota.
           rewrite Hc. simpl. exists (s :: ss'), (u :: up').
@@ -991,6 +1114,53 @@ Section ChainProofs.
       repeat split; auto; lia.
     Qed.
 
+    (* ... and such a round is idle: no input taken, no coder put anything out *)
+    Lemma chain_run_quiet_sum (ss : list stage_st) :
+      forall up us ml ss' up' out,
+        Forall quiet ss -> chain_run dstep ss up us [] ml = Ok (ss', up', out) ->
+        zsum_l up' = zsum_l up.
+    Proof.
+      induction ss as [|s ss IH]; intros up us ml ss' up' out Hq H; simpl in H.
+      - injection H as _ <- _. reflexivity.
+      - destruct up as [|u up]; [discriminate|]. destruct us as [|w us]; [discriminate|].
+        inversion Hq as [|? ? Hqs Hqss]; subst.
+        destruct (u <? w).
+        + destruct (quiet_step s ml Hqs) as (Ho & _).
+          destruct (dstep s [] ml) as [s1 o]. simpl in Ho. subst o.
+          cbv zeta in H. rewrite trim_out_nil, ?stop_here_nil_data in H.
+          destruct (chain_run dstep ss up us [] ml) as [[[ss2 up2] d]|e] eqn:E; simpl in H; [|discriminate].
+          injection H as _ <- _. cbn [zsum_l]. rewrite (IH _ _ _ _ _ _ Hqss E), zlen_nil. lia.
+        + change (zlen [] =? 0) with true in H. cbv iota in H.
+          destruct (chain_run dstep ss up us [] ml) as [[[ss2 up2] d]|e] eqn:E; simpl in H; [|discriminate].
+          injection H as _ <- _. cbn [zsum_l]. now rewrite (IH _ _ _ _ _ _ Hqss E).
+    Qed.
+
+    Lemma stuck_step_idle (st st' : dst) (ml : Z) (rd : nat) (out : bytes) :
+      stuck quiet st -> 0 < ml -> decompress dstep st ml rd = Ok (st', out) -> idle st st' = true.
+    Proof.
+      intros (Hq & Hlu & Hls & Hun & Hpos & Hno) Hml H.
+      unfold decompress in H.
+      destruct (ml <? 0) eqn:E1; [apply Z.ltb_lt in E1; lia|].
+      destruct (zlen (buf st) - pos st >=? ml) eqn:E2;
+        [destruct (Z.geb_spec (zlen (buf st) - pos st) ml); [lia|discriminate]|].
+      destruct (read_data st rd) as [st1 data] eqn:Hrd.
+      apply read_data_spec in Hrd.
+      destruct Hrd as (R1 & R2 & R3 & R4 & R5 & R6 & R7 & R8 & R9 & R10 & R11).
+      rewrite Hun, zlen_nil in R11.
+      assert (data = []) as ->.
+      { destruct Hno as [Hf|[Hi|Hb]].
+        - rewrite Hf in R9. symmetry in R9. apply app_eq_nil in R9. apply R9.
+        - apply zlen_le0_nil. lia.
+        - apply zlen_le0_nil. lia. }
+      rewrite zlen_nil, Z.add_0_r in R10.
+      rewrite R6, Hun in H. change (zlen [] >? 0) with false in H. cbv iota in H.
+      destruct (run_chain dstep st1 [] ml) as [[st2 tmp]|e] eqn:Hrc; simpl in H; [|discriminate].
+      apply run_chain_spec in Hrc. destruct Hrc as (C1 & _ & C3 & _).
+      rewrite R1, R2, R3 in C1. pose proof (chain_run_quiet_sum _ _ _ _ _ _ _ Hq C1) as Hsum.
+      unfold idle, produced.
+      destruct (_ <=? ml); injection H as <- _; simpl; rewrite C3, R10, Hsum, !Z.eqb_refl; reflexivity.
+    Qed.
+
     Theorem worker_spins (fuel : nat) :
       forall (st : dst) (size mb : Z) (sched : list nat),
         stuck quiet st -> 0 < size -> 0 < mb ->
@@ -1023,11 +1193,12 @@ Section ChainProofs.
       apply IH. destruct Hp as [c ->]. apply D_mono.
     Qed.
 
-    Lemma creach_prefix (s0s ss : list stage_st) (x z : bytes) :
-      creach dstep s0s ss x z -> prefix z (Dchain D s0s x).
+    Lemma creach_prefix (s0s ss : list stage_st) (up us : list Z) (x z : bytes) :
+      creach dstep s0s ss up us x z -> prefix z (Dchain D s0s x).
     Proof.
-      induction 1 as [x|s0 s x y s0s ss z Hr Hc IH]; simpl; [apply prefix_refl|].
-      eapply prefix_trans; [exact IH|]. apply Dchain_mono. eapply stage_safe; exact Hr.
+      induction 1 as [up us x|s0 s x y y' s0s ss up us w Hr Hp Hg Hc IH]; simpl; [apply prefix_refl|].
+      eapply prefix_trans; [exact IH|]. apply Dchain_mono.
+      eapply prefix_trans; [exact Hp|]. eapply stage_safe; exact Hr.
     Qed.
 
     Lemma safe_state_prefix (s0s : list stage_st) (P0 : bytes) (st : dst) (acc : bytes) :
@@ -1256,7 +1427,7 @@ Section GuardProofs.
         let '(st', tmp) := r in
         let rem := if zlen tmp >? 0 then size - zlen tmp else size in
         do stalled' <- (if zlen tmp >? 0 then Ok 0
-                        else if consumed st' =? consumed st then
+                        else if idle st st' then
                                (if stalled + 1 >? max_stalled_rounds then Err EBad7z
                                 else Ok (stalled + 1))
                              else Ok stalled);
@@ -1286,10 +1457,10 @@ Section GuardProofs.
         as [[st2 o]|e] eqn:Hw; simpl in H; [|discriminate].
       rewrite (IH _ _ _ _ _ _ Hw). simpl. exact H.
     - destruct (size <=? 0) eqn:Er.
-      + destruct (consumed st1 =? consumed st);
+      + destruct (idle st st1);
           [destruct (stalled + 1 >? max_stalled_rounds); [discriminate|]|];
           simpl in H; exact H.
-      + destruct (consumed st1 =? consumed st);
+      + destruct (idle st st1);
           [destruct (stalled + 1 >? max_stalled_rounds); [discriminate|]|];
           simpl in H.
         * destruct (worker_loop_g dstep fuel (stalled + 1) st1 size mb (tl sched))
@@ -1363,12 +1534,12 @@ Section GuardProofs.
         as [[st2 o]|e] eqn:Hw; simpl in H; [|discriminate].
       destruct (IH 0 _ _ _ _ _ Hw) as [Hg|Hg]; rewrite Hg; simpl; [left; exact H|right; reflexivity].
     - destruct (size <=? 0) eqn:Er.
-      + destruct (consumed st1 =? consumed st);
+      + destruct (idle st st1);
           [destruct (stalled + 1 >? max_stalled_rounds); [right; reflexivity|]|];
           simpl; left; exact H.
       + destruct (worker_decompress dstep fuel st1 size mb (tl sched))
           as [[st2 o]|e] eqn:Hw; simpl in H; [|discriminate].
-        destruct (consumed st1 =? consumed st);
+        destruct (idle st st1);
           [destruct (stalled + 1 >? max_stalled_rounds); [right; reflexivity|]|];
           simpl.
         * destruct (IH (stalled + 1) _ _ _ _ _ Hw) as [Hg|Hg]; rewrite Hg; simpl;
@@ -1389,7 +1560,7 @@ Section GuardProofs.
         | Ok (st', tmp) =>
           let rem := if zlen tmp >? 0 then size - zlen tmp else size in
           let stalled' := if zlen tmp >? 0 then 0
-                          else if consumed st' =? consumed st then stalled + 1 else stalled in
+                          else if idle st st' then stalled + 1 else stalled in
           if rem <=? 0 then Z.max stalled stalled'
           else Z.max stalled (worker_stall_max dstep fuel' stalled' st' rem mb (tl sched))
         end
@@ -1429,13 +1600,13 @@ Section GuardProofs.
         as [[st2 o]|e] eqn:Hw; simpl in H; [|discriminate].
       rewrite (IH 0 _ _ _ _ _ Hw) by lia. simpl. exact H.
     - destruct (size <=? 0) eqn:Er.
-      + destruct (consumed st1 =? consumed st).
+      + destruct (idle st st1).
         * destruct (stalled + 1 >? max_stalled_rounds) eqn:Eg;
             [apply Z.gtb_lt in Eg; lia|]. simpl. exact H.
         * simpl. exact H.
       + destruct (worker_decompress dstep fuel st1 size mb (tl sched))
           as [[st2 o]|e] eqn:Hw; simpl in H; [|discriminate].
-        destruct (consumed st1 =? consumed st).
+        destruct (idle st st1).
         * pose proof (worker_stall_max_ge fuel (stalled + 1) st1 size mb (tl sched)) as Hge.
           destruct (stalled + 1 >? max_stalled_rounds) eqn:Eg;
             [apply Z.gtb_lt in Eg; lia|]. simpl.
@@ -1458,7 +1629,8 @@ Section GuardProofs.
     induction ss as [|s ss IH]; intros up us data ml H; simpl in H; [discriminate|].
     destruct up as [|u up]; [discriminate|]. destruct us as [|z us]; [discriminate|].
     destruct (u <? z).
-    - destruct (dstep s data ml) as [s1 o].
+    - destruct (dstep s data ml) as [s1 o0]. set (o := trim_out ss o0 (z - u)) in H.
+      destruct (stop_here ss data o); [discriminate|].
       destruct (chain_run dstep ss up us o ml) as [[[ss2 up2] d]|e] eqn:E;
         simpl in H; [discriminate|].
       injection H as ->. exact (IH _ _ _ _ E).
@@ -1497,6 +1669,96 @@ Section GuardProofs.
         * destruct (_ <=? ml); discriminate.
         * injection H as ->. exact (g_run_chain_no_fuel _ _ _ E).
   Qed.
+
+  (* ---- progress of the chain --------------------------------------------- *)
+  Lemma budget_l_nonneg (up us : list Z) : 0 <= budget_l up us.
+  Proof.
+    revert us. induction up as [|u up IH]; intros [|z us]; simpl; try lia.
+    specialize (IH us). lia.
+  Qed.
+
+  Lemma chain_run_progress (ss : list stage_st) :
+    forall up us data ml ss' up' out,
+      chain_run dstep ss up us data ml = Ok (ss', up', out) ->
+      zsum_l up <= zsum_l up' /\ budget_l up' us <= budget_l up us /\
+      (zsum_l up' <> zsum_l up -> budget_l up' us < budget_l up us).
+  Proof.
+    induction ss as [|s ss IH]; intros up us data ml ss' up' out H; simpl in H.
+    - injection H as _ <- _. repeat split; lia.
+    - destruct up as [|u up]; [discriminate|]. destruct us as [|z us]; [discriminate|].
+      destruct (u <? z) eqn:Eg.
+      + apply Z.ltb_lt in Eg.
+        destruct (dstep s data ml) as [s1 o0]. set (o := trim_out ss o0 (z - u)) in H.
+        pose proof (zlen_nonneg o) as Ho.
+        destruct (stop_here ss data o) eqn:Est.
+        * apply stop_here_true in Est. destruct Est as (Ho0 & _ & _).
+          injection H as _ <- _. rewrite Ho0, zlen_nil. cbn [zsum_l budget_l].
+          replace (u + 0) with u by lia. repeat split; lia.
+        * destruct (chain_run dstep ss up us o ml) as [[[ss2 up2] d]|e] eqn:E;
+            simpl in H; [|discriminate].
+          injection H as _ <- _. destruct (IH _ _ _ _ _ _ _ E) as (H1 & H2 & H3).
+          cbn [zsum_l budget_l]. split; [lia|]. split; [lia|].
+          intros Hne. destruct (Z.eq_dec (zsum_l up2) (zsum_l up)) as [He|He]; [|specialize (H3 He); lia].
+          assert (0 < zlen o) by lia. lia.
+      + destruct (zlen data =? 0); [|discriminate].
+        destruct (chain_run dstep ss up us [] ml) as [[[ss2 up2] d]|e] eqn:E;
+          simpl in H; [|discriminate].
+        injection H as _ <- _. destruct (IH _ _ _ _ _ _ _ E) as (H1 & H2 & H3).
+        cbn [zsum_l budget_l]. split; [lia|]. split; [lia|].
+        intros Hne. apply Z.add_lt_mono_l. apply H3. lia.
+  Qed.
+
+  (* one call of decompress runs the chain at most once, on the same gates *)
+  Lemma g_decompress_chain (st st' : dst) (ml : Z) (rd : nat) (out : bytes) :
+    decompress dstep st ml rd = Ok (st', out) ->
+    unpacksizes st' = unpacksizes st /\
+    (unpacked st' = unpacked st \/
+     exists data ml' tmp, chain_run dstep (stages st) (unpacked st) (unpacksizes st) data ml'
+                          = Ok (stages st', unpacked st', tmp)).
+  Proof.
+    unfold decompress. intros H.
+    assert (Hrun : forall st1 data0 rd0 st2 data tmp ml',
+               read_data st rd0 = (st1, data0) ->
+               run_chain dstep st1 data ml' = Ok (st2, tmp) ->
+               unpacksizes st2 = unpacksizes st /\
+               chain_run dstep (stages st) (unpacked st) (unpacksizes st) data ml'
+               = Ok (stages st2, unpacked st2, tmp)).
+    { intros st1 data0 rd0 st2 data tmp ml' Hrd Hrc.
+      apply read_data_spec in Hrd. destruct Hrd as (R1 & R2 & R3 & _).
+      apply run_chain_spec in Hrc. destruct Hrc as (C1 & C2 & _).
+      rewrite R1, R2, R3 in C1. split; [congruence|exact C1]. }
+    destruct (ml <? 0).
+    - destruct (read_data st rd) as [st1 data] eqn:Hrd.
+      destruct (run_chain dstep st1 (unused st1 ++ data) ml) as [[st2 tmp]|e] eqn:E;
+        simpl in H; [|discriminate].
+      destruct (Hrun _ _ _ _ _ _ _ Hrd E) as (Hu & Hc).
+      injection H as <- _. simpl. split; [exact Hu|]. right. eauto.
+    - destruct (zlen (buf st) - pos st >=? ml).
+      + injection H as <- _. simpl. split; [reflexivity|left; reflexivity].
+      + destruct (read_data st rd) as [st1 data] eqn:Hrd.
+        destruct (zlen (unused st1) >? 0).
+        * destruct (run_chain dstep st1 (unused st1 ++ data) ml) as [[st2 tmp]|e] eqn:E;
+            simpl in H; [|discriminate].
+          destruct (Hrun _ _ _ _ _ _ _ Hrd E) as (Hu & Hc).
+          destruct (_ <=? ml); injection H as <- _; simpl; (split; [exact Hu|right; eauto]).
+        * destruct (run_chain dstep st1 data ml) as [[st2 tmp]|e] eqn:E;
+            simpl in H; [|discriminate].
+          destruct (Hrun _ _ _ _ _ _ _ Hrd E) as (Hu & Hc).
+          destruct (_ <=? ml); injection H as <- _; simpl; (split; [exact Hu|right; eauto]).
+  Qed.
+
+  Lemma decompress_progress (st st' : dst) (ml : Z) (rd : nat) (out : bytes) :
+    decompress dstep st ml rd = Ok (st', out) ->
+    budget st' <= budget st /\ (produced st' <> produced st -> budget st' < budget st).
+  Proof.
+    intros H. destruct (g_decompress_chain _ _ _ _ _ H) as (Hus & [Hup|(data & ml' & tmp & Hc)]);
+      unfold budget, produced; rewrite Hus.
+    - rewrite Hup. split; [lia|congruence].
+    - destruct (chain_run_progress _ _ _ _ _ _ _ _ Hc) as (_ & H2 & H3). split; assumption.
+  Qed.
+
+  Lemma budget_nonneg (st : dst) : 0 <= budget st.
+  Proof. apply budget_l_nonneg. Qed.
 
   (* what a call does to the file and to [consumed]; no invariant needed *)
   Lemma g_decompress_io (st st' : dst) (ml : Z) (rd : nat) (out : bytes) :
@@ -1542,11 +1804,12 @@ Section GuardProofs.
           eapply Hgoal; [| |exact H]; assumption.
   Qed.
 
-  (* measure: 17 * owed bytes + unread file bytes + (17 - stalled) *)
+  (* measure: 17 * owed bytes + unread file bytes + what the coders may still put out
+     + (17 - stalled) *)
   Lemma worker_loop_g_terminates (fuel : nat) :
     forall (stalled : Z) (st : dst) (size mb : Z) (sched : list nat),
       stalled <= max_stalled_rounds ->
-      (17 * Z.to_nat size + length (fp_rest st) + Z.to_nat (17 - stalled) <= fuel)%nat ->
+      (17 * Z.to_nat size + length (fp_rest st) + Z.to_nat (budget st) + Z.to_nat (17 - stalled) <= fuel)%nat ->
       worker_loop_g dstep fuel stalled st size mb sched <> Err EFuel.
   Proof.
     unfold max_stalled_rounds.
@@ -1556,11 +1819,13 @@ Section GuardProofs.
     destruct (decompress dstep st (Z.min size mb) (sched_hd st sched)) as [[st1 tmp]|e] eqn:Hd.
     2:{ simpl. intros H. injection H as ->. exact (g_decompress_no_fuel _ _ _ Hd). }
     simpl. destruct (g_decompress_io _ _ _ _ _ Hd) as (data & Hfp & Hcons).
+    destruct (decompress_progress _ _ _ _ _ Hd) as (Hb1 & Hb2).
+    pose proof (budget_nonneg st) as Hbn. pose proof (budget_nonneg st1) as Hbn1.
     assert (Hlen : (length (fp_rest st) = length data + length (fp_rest st1))%nat)
       by (rewrite Hfp, app_length; reflexivity).
     assert (Hrec : forall stalled' rem,
                stalled' <= 16 ->
-               (17 * Z.to_nat rem + length (fp_rest st1) + Z.to_nat (17 - stalled') <= fuel)%nat ->
+               (17 * Z.to_nat rem + length (fp_rest st1) + Z.to_nat (budget st1) + Z.to_nat (17 - stalled') <= fuel)%nat ->
                (do r' <- worker_loop_g dstep fuel stalled' st1 rem mb (tl sched);
                 let '(st'', out) := r' in Ok (st'', tmp ++ out)) <> Err EFuel).
     { intros s' rem Hs' Hf' H.
@@ -1571,18 +1836,21 @@ Section GuardProofs.
     - apply Z.gtb_lt in Et. simpl.
       destruct (size - zlen tmp <=? 0) eqn:Er; [discriminate|]. apply Z.leb_gt in Er.
       apply Hrec; lia.
-    - destruct (consumed st1 =? consumed st) eqn:Ec.
+    - destruct (idle st st1) eqn:Ec.
       + destruct (stalled + 1 >? max_stalled_rounds) eqn:Eg; [discriminate|].
         unfold max_stalled_rounds in Eg.
         assert (stalled + 1 <= 16) by (destruct (Z.gtb_spec (stalled + 1) 16); [discriminate|lia]).
         simpl. destruct (size <=? 0); [discriminate|]. apply Hrec; lia.
-      + apply Z.eqb_neq in Ec. simpl. destruct (size <=? 0); [discriminate|].
-        assert (0 < zlen data) by (pose proof (zlen_nonneg data); lia).
-        unfold zlen in *. apply Hrec; lia.
+      + simpl. destruct (size <=? 0); [discriminate|].
+        unfold idle in Ec. apply andb_false_iff in Ec.
+        destruct Ec as [Ec|Ec]; apply Z.eqb_neq in Ec.
+        * assert (0 < zlen data) by (pose proof (zlen_nonneg data); lia).
+          unfold zlen in *. apply Hrec; lia.
+        * specialize (Hb2 Ec). apply Hrec; lia.
   Qed.
 
   Theorem worker_g_terminates (fuel : nat) (st : dst) (size mb : Z) (sched : list nat) :
-    (17 * Z.to_nat size + length (fp_rest st) + 17 <= fuel)%nat ->
+    (17 * Z.to_nat size + length (fp_rest st) + Z.to_nat (budget st) + 17 <= fuel)%nat ->
     worker_decompress_g dstep fuel st size mb sched <> Err EFuel.
   Proof.
     intros Hf. unfold worker_decompress_g.
@@ -1591,7 +1859,7 @@ Section GuardProofs.
   Qed.
 
   Corollary worker_g_terminates_18 (fuel : nat) (st : dst) (size mb : Z) (sched : list nat) :
-    (18 * (Z.to_nat size + length (fp_rest st) + 1) <= fuel)%nat ->
+    (18 * (Z.to_nat size + length (fp_rest st) + Z.to_nat (budget st) + 1) <= fuel)%nat ->
     worker_decompress_g dstep fuel st size mb sched <> Err EFuel.
   Proof. intros Hf. apply worker_g_terminates. lia. Qed.
 
@@ -1618,7 +1886,8 @@ Section GuardProofs.
       rewrite Hd. simpl.
       destruct (g_decompress_io _ _ _ _ _ Hd) as (data & Hio & Hc).
       rewrite Hfp in Hio. symmetry in Hio. apply app_eq_nil in Hio. destruct Hio as (-> & Hfp1).
-      rewrite zlen_nil, Z.add_0_r in Hc. rewrite Hc, Z.eqb_refl.
+      assert (Hml : 0 < Z.min size mb) by lia.
+      rewrite (stuck_step_idle stage_st dstep quiet quiet_step st st1 _ _ _ Hst Hml Hd).
       change (zlen [] >? 0) with false. cbv iota.
       destruct (stalled + 1 >? max_stalled_rounds) eqn:Eg; [reflexivity|].
       unfold max_stalled_rounds in Eg.
